@@ -6,6 +6,7 @@ import (
 	"math/rand"
 	"net"
 	"strings"
+	"sync"
 	"testing"
 	"time"
 
@@ -275,7 +276,9 @@ func runC03A(t *testing.T, rng *rand.Rand, rec *sim.Rec, tier string, caseNo int
 		// which client/5-tuple the request is sent from
 		c := alice
 		state := "own-allocation"
-		if method == wire.MethodAllocate || rng.Intn(5) == 0 {
+		if a, st := x.m.Alloc(alice); method == wire.MethodAllocate && (a == nil || st != sim.Live) {
+			state = "no-allocation" // alice's 5-tuple is free (again): anybody's valid Allocate may take it
+		} else if (method == wire.MethodAllocate && rng.Intn(3) != 0) || (method != wire.MethodAllocate && rng.Intn(5) == 0) {
 			c = fresh
 			state = "no-allocation"
 			if a, st := x.m.Alloc(fresh); a != nil && st != sim.Dead {
@@ -348,6 +351,15 @@ func runC03A(t *testing.T, rng *rand.Rand, rec *sim.Rec, tier string, caseNo int
 		}
 		before := x.digest()
 		tid := w.NewTID()
+		sameTID := false
+		if a, _ := x.m.Alloc(c); a != nil && method == wire.MethodAllocate && state != "no-allocation" && rng.Intn(3) != 0 {
+			// the transaction id of the Allocate that made the standing allocation: a repeat of it
+			// is only a retransmission if it also authenticates
+			tid, sameTID = a.AllocTID, true
+			if defect == "other-user" {
+				valid = true // (the statement ties only the other methods to the allocation's creator)
+			}
+		}
 		raw := c03Build(method, tid, x.attrsFor(method, p2, 0x4002), cr)
 		r := x.send(c, method, raw, tid)
 		code := codeOfMsg(r)
@@ -359,7 +371,7 @@ func runC03A(t *testing.T, rng *rand.Rand, rec *sim.Rec, tier string, caseNo int
 
 			continue
 		}
-		rec.FP("defect/m%x/%s/%s/%d", method, state, defect, code)
+		rec.FP("defect/m%x/%s/%s/%d/repeated-tid=%v", method, state, defect, code, sameTID)
 		if code == 0 {
 			kind := "auth-defect-success"
 			if defect == "other-user" {
@@ -688,6 +700,100 @@ func runC03B(t *testing.T, rng *rand.Rand, rec *sim.Rec, tier string, caseNo int
 	rec.SetSample(map[string]any{"impl": impl})
 }
 
+// runC03Concurrent: a server with several listeners mints challenges for many clients at once;
+// the nonce of every 401 must be accepted when the client uses it straight away (the statement's
+// "whose fresh nonce and realm the server itself subsequently accepts"), whichever read loops
+// were minting other nonces at the same moment.
+func runC03Concurrent(t *testing.T, rng *rand.Rand, rec *sim.Rec, tier string, caseNo int) {
+	cfg := sim.Config{Realm: "verif.test", Users: map[string]string{"alice": "pw-a"}}
+	nl := 3 + rng.Intn(3)
+	for i := 0; i < nl; i++ {
+		cfg.UDPListeners = append(cfg.UDPListeners, &net.UDPAddr{IP: sim.ServerIP4, Port: 3478 + i})
+	}
+	w, err := sim.NewWorld(cfg, rec, rng, true)
+	if err != nil {
+		t.Fatal(err)
+	}
+	defer w.Shutdown()
+	w.Net.LogSends = false
+	const perClient = 40
+	nclients := 2 * nl
+	type bad struct{ what string }
+	out := make([][]bad, nclients)
+	var wg sync.WaitGroup
+	start := make(chan struct{})
+	key := wire.LongTermKey("alice", "verif.test", "pw-a")
+	for i := 0; i < nclients; i++ {
+		u, err := w.Net.ListenUDP(net.IPv4(10, 1, 0, byte(1+i)).To4(), 5000+i)
+		if err != nil {
+			t.Fatal(err)
+		}
+		srv := &net.UDPAddr{IP: sim.ServerIP4, Port: 3478 + i%nl}
+		prng := rand.New(rand.NewSource(rng.Int63()))
+		wg.Add(1)
+		go func(i int) {
+			defer wg.Done()
+			buf := make([]byte, 2048)
+			exchange := func(raw []byte, tid [12]byte) *wire.Msg {
+				_, _ = u.WriteTo(raw, srv)
+				for {
+					_ = u.SetReadDeadline(time.Now().Add(2 * time.Second))
+					n, _, err := u.ReadFrom(buf)
+					if err != nil {
+						return nil
+					}
+					if m, err := wire.ParseSTUN(buf[:n]); err == nil && m.TID == tid {
+						return m
+					}
+				}
+			}
+			<-start
+			for k := 0; k < perClient; k++ {
+				var tid [12]byte
+				prng.Read(tid[:])
+				b := wire.NewBuilder(wire.MethodRefresh, wire.ClassRequest, tid)
+				r := exchange(b.Bytes(), tid)
+				if r == nil || r.ErrorCode() != 401 {
+					out[i] = append(out[i], bad{fmt.Sprintf("request without credentials answered %d", codeOfMsg(r))})
+
+					return
+				}
+				nonce, ok1 := r.Get(wire.AttrNonce)
+				realm, ok2 := r.Get(wire.AttrRealm)
+				if !ok1 || !ok2 {
+					out[i] = append(out[i], bad{"401 without NONCE/REALM"})
+
+					return
+				}
+				prng.Read(tid[:])
+				b = wire.NewBuilder(wire.MethodRefresh, wire.ClassRequest, tid)
+				b.Add(wire.AttrUsername, []byte("alice"))
+				b.Add(wire.AttrRealm, realm)
+				b.Add(wire.AttrNonce, nonce)
+				b.AddIntegrity(key)
+				r = exchange(b.Bytes(), tid)
+				// no allocation here: the server answers 437 (or stays silent); it must not turn down the
+				// nonce it has just minted (438) or the credentials (400/401)
+				if cc := codeOfMsg(r); cc == 438 || cc == 401 || cc == 400 {
+					out[i] = append(out[i], bad{fmt.Sprintf("nonce %q from a 401 minted a moment ago (round %d) was answered %d", nonce, k, cc)})
+
+					return
+				}
+			}
+		}(i)
+	}
+	close(start)
+	wg.Wait()
+	for _, bs := range out {
+		for _, b := range bs {
+			rec.Violate("auth-challenge-unusable", "concurrent", "%d listeners, %d clients at once: %s", nl, nclients, b.what)
+		}
+	}
+	rec.EvN("concurrent-challenges-used", nclients*perClient)
+	rec.FP("challenge-reuse/concurrent/listeners=%d", nl)
+	rec.SetSample(map[string]any{"kind": "concurrent-challenges", "listeners": nl, "clients": nclients})
+}
+
 func init() {
 	register("C03", PropDef{
 		Bubble: true,
@@ -701,6 +807,11 @@ func init() {
 		Run: func(t *testing.T, rng *rand.Rand, rec *sim.Rec, tier string, caseNo int) {
 			if caseNo%6 == 5 {
 				runC03B(t, rng, rec, tier, caseNo/6)
+
+				return
+			}
+			if caseNo%20 == 7 {
+				runC03Concurrent(t, rng, rec, tier, caseNo)
 
 				return
 			}
